@@ -44,12 +44,14 @@ pub struct Session {
     /// send the payload together with the upgrade request instead of after its reply
     pub payload_pipelined: bool,
     pub close_early: bool,
+    /// the service behind org.verif.test writes its JSON with blanks after `:` and `,`
+    pub spaced: bool,
 }
 
 fn sess_json(s: &Session) -> Value {
     json!({"mode": format!("{:?}", s.mode), "requests": syms_json(&s.syms), "pipelined": s.pipelined,
         "upgrade_payload_hex": s.upgrade.as_ref().map(|p| p.iter().map(|b| format!("{:02x}", b)).collect::<String>()),
-        "payload_pipelined": s.payload_pipelined, "close_early": s.close_early})
+        "payload_pipelined": s.payload_pipelined, "close_early": s.close_early, "spaced_service": s.spaced})
 }
 
 fn sess_from(v: &Value) -> Session {
@@ -66,6 +68,7 @@ fn sess_from(v: &Value) -> Session {
         upgrade: v["upgrade_payload_hex"].as_str().map(|s| (0..s.len() / 2).filter_map(|i| u8::from_str_radix(&s[2 * i..2 * i + 2], 16).ok()).collect()),
         payload_pipelined: v["payload_pipelined"].as_bool().unwrap_or(false),
         close_early: v["close_early"].as_bool().unwrap_or(false),
+        spaced: v["spaced_service"].as_bool().unwrap_or(false),
     }
 }
 
@@ -78,14 +81,14 @@ pub struct World {
 }
 
 impl World {
-    pub fn start() -> Option<World> {
+    pub fn start(spaced: bool) -> Option<World> {
         let scratch = Scratch::new("c18");
         let svc = harness_bin("vl-svc");
         let s1 = scratch.unix_addr("s1.sock");
         let s2 = scratch.unix_addr("s2.sock");
         let resolver = scratch.unix_addr("res.sock");
         let map = json!({"org.verif.test": s1, "org.verif": s2, "org.verif.test-2": s2, "org.verif.Test": s2}).to_string();
-        let p1 = Proc::spawn(&svc, &["listen", &s1], Some(&scratch.path.join("s1.sock")))?;
+        let p1 = Proc::spawn(&svc, &[if spaced { "listen-spaced" } else { "listen" }, &s1], Some(&scratch.path.join("s1.sock")))?;
         let p2 = Proc::spawn(&svc, &["listen", &s2], Some(&scratch.path.join("s2.sock")))?;
         let p3 = Proc::spawn(&svc, &["resolver", &resolver, &map], Some(&scratch.path.join("res.sock")))?;
         Some(World { _scratch: scratch, s1, s2, resolver, _procs: vec![p1, p2, p3] })
@@ -488,8 +491,9 @@ fn session_strategy() -> impl Strategy<Value = Session> {
         })),
         prop::bool::weighted(0.2),
         prop::bool::weighted(0.15),
+        prop::bool::weighted(0.3),
     )
-        .prop_map(move |(mode, ix, pipelined, upgrade, payload_pipelined, close_early)| {
+        .prop_map(move |(mode, ix, pipelined, upgrade, payload_pipelined, close_early, spaced)| {
             let mut syms: Vec<Sym> = ix.iter().map(|(a, b)| if mode == Mode::Resolver { ra[*a] } else { ca[*b] }).collect();
             if matches!(mode, Mode::Activate | Mode::InnerBridge) {
                 // another service instance lists its interfaces in another order: GetInfo bytes
@@ -500,7 +504,9 @@ fn session_strategy() -> impl Strategy<Value = Session> {
                     }
                 }
             }
-            let mut s = Session { mode, syms, pipelined, upgrade, payload_pipelined, close_early };
+            // the activated / inner-bridge targets are separate (compact) instances
+            let spaced = spaced && matches!(mode, Mode::Resolver | Mode::Connect);
+            let mut s = Session { mode, syms, pipelined, upgrade, payload_pipelined, close_early, spaced };
             if s.syms.is_empty() && s.upgrade.is_none() {
                 s.syms.push(Sym { kind: Kind::Echo, flag: Flag::None });
             }
@@ -537,7 +543,7 @@ fn replay(ctx: &mut Ctx, v: &Value) {
     let s = sess_from(&v["case"]);
     ctx.case(None);
     ctx.force_sample(v["case"].clone());
-    let Some(w) = World::start() else {
+    let Some(w) = World::start(s.spaced) else {
         ctx.inconclusive("cannot start the helper services");
         return;
     };
@@ -563,13 +569,13 @@ pub fn run(args: &Args) -> ! {
         ctx.inconclusive("the varlink CLI binary is not built (VERIF_REPO_BIN)");
         ctx.finish();
     }
-    let Some(w) = World::start() else {
+    let (Some(w), Some(ws)) = (World::start(false), World::start(true)) else {
         ctx.inconclusive("cannot start the helper services");
         ctx.finish();
     };
     // one fixed session per mode first (cheap smoke of every mode, plain + upgrade)
     let mut slow_once = 0;
-    for mode in [Mode::Resolver, Mode::Connect, Mode::Activate, Mode::InnerBridge] {
+    for (mode, spaced) in [(Mode::Resolver, false), (Mode::Connect, false), (Mode::Activate, false), (Mode::InnerBridge, false), (Mode::Resolver, true), (Mode::Connect, true)] {
         for up in [None, Some(b"hello \0 upgraded world\n".to_vec())] {
             let s = Session {
                 mode,
@@ -578,11 +584,12 @@ pub fn run(args: &Args) -> ! {
                 upgrade: up,
                 payload_pipelined: false,
                 close_early: false,
+                spaced,
             };
             ctx.case(Some(hash64(&sess_json(&s).to_string())));
-            ctx.class(&format!("fixed:{:?}", mode));
+            ctx.class(&format!("fixed:{:?}{}", mode, if spaced { "(spaced-JSON service)" } else { "" }));
             ctx.force_sample(sess_json(&s));
-            match pt::guard(|| judge(&w, &s)) {
+            match pt::guard(|| judge(if spaced { &ws } else { &w }, &s)) {
                 Ok(None) => {}
                 Ok(Some(_)) => slow_once += 1,
                 Err(f) => {
@@ -602,9 +609,12 @@ pub fn run(args: &Args) -> ! {
         if s.close_early {
             ctx.class("close-right-after-last-request");
         }
+        if s.spaced {
+            ctx.class("service-writes-spaced-JSON");
+        }
         ctx.sample(|| sess_json(s));
         let t0 = Instant::now();
-        let r = judge(&w, s);
+        let r = judge(if s.spaced { &ws } else { &w }, s);
         if std::env::var_os("VL_TIMING").is_some() {
             eprintln!("{:?} {} ms {}", s.mode, t0.elapsed().as_millis(), sess_json(s));
         }
@@ -618,6 +628,7 @@ pub fn run(args: &Args) -> ! {
     }
     ctx.section("slow_once_not_repeated", json!(slow.get()));
     drop(w);
+    drop(ws);
     ctx.exhaustive = Some(false);
     ctx.finish()
 }
